@@ -43,6 +43,18 @@ def valid(text: str) -> bool:
         return False
 
 
+def compiles(text: str) -> bool:
+    import warnings
+
+    try:
+        with warnings.catch_warnings():
+            warnings.simplefilter("ignore")
+            compile(text, "<model>", "exec", dont_inherit=True)
+        return True
+    except (SyntaxError, ValueError, RecursionError, MemoryError, OverflowError):
+        return False
+
+
 def transactions(yielded):
     """{(group, number): [(range, new), ...]} in the numbering the statement refers to.
 
@@ -156,6 +168,9 @@ def check_pass(p: dict):
         cand = p["do"][-1]["out"] if p["do"] else source
         if cand is not None:
             info["candidate_valid"] = valid(cand)
+            if info["candidate_valid"] and p["result"] == source and cand != source and compiles(source) and not compiles(cand):
+                # parses, but is not code that Python will run although the input was (a return outside its function ...): rolling it back is the same clause
+                info["candidate_valid"] = False
             if not info["candidate_valid"] and p["result"] != source:
                 out.append({"kind": "no_rollback", "detail": {"candidate": cand, "result": p["result"]}})
         if not p["scheduled"] and p["result"] != source:
